@@ -1271,7 +1271,7 @@ func (kmc *KeystoreManagerForPoC) useKeystore(name string, privPassphrase []byte
 		}
 
 		// hash salted passphrase
-		saltPassphrase := append(addrManager.privPassphraseSalt[:], privPassphrase...)
+		saltPassphrase := append(append([]byte{}, addrManager.privPassphraseSalt[:]...), privPassphrase...)
 		addrManager.hashedPrivPassphrase = sha512.Sum512(saltPassphrase)
 		zero.Bytes(saltPassphrase)
 
@@ -1794,7 +1794,7 @@ func (kmc *KeystoreManagerForPoC) ChangePrivPassphrase(oldPrivPass, newPrivPass 
 		// passphrase and salt.
 		var hashedPassphrase [sha512.Size]byte
 		if addrManager.unlocked {
-			saltedPassphrase := append(passphraseSalt[:],
+			saltedPassphrase := append(append([]byte{}, passphraseSalt[:]...),
 				newPrivPass...)
 			hashedPassphrase = sha512.Sum512(saltedPassphrase)
 			zero.Bytes(saltedPassphrase)
